@@ -3,6 +3,7 @@ package main
 // C17 — declared struct types are enforced on every write.
 
 import (
+	"fmt"
 	"go/constant"
 	"go/token"
 	"go/types"
@@ -13,6 +14,7 @@ import (
 func checkC17(c *Ctx) {
 	c.explainf("C17 decides: every write route funnels through HashSet (the bucket map is written only by HashSet / HashDelete / CloneFrom / MakeHash); in HashSet the field type check dominates every mutation and, on an error other than the not-a-symbol sentinel, the routine returns that error before any mutation; in the checker an unknown field name and a type mismatch (apart from the empty-slice exception) reach an error return; MakeHash type-checks the whole record of a declared struct and returns the error; writing through a pointer copies a record only under the type-identity test; re-binding a typed variable stores only under an acceptance test and otherwise ends in an error. The routine that reports the type of an instance and the routine that builds an instance are examined for look-ups of the definition by name in the package-level registry (C17-IDENT). It does not decide that the type comparison is right for every field type, nor redefinition semantics.")
 	c.checkDefinitionByName("C17-IDENT")
+	c.checkDerivedTypeKeys("C17-DERIVED")
 	Map := c.mustField("C17-WM", "SexpHash", "Map")
 	KeyOrder := c.field("SexpHash", "KeyOrder")
 	NumKeys := c.field("SexpHash", "NumKeys")
@@ -631,4 +633,44 @@ func derivesFromGlobal(v ssa.Value, g *ssa.Global, depth int) bool {
 		return derivesFromGlobal(x.X, g, depth+1)
 	}
 	return false
+}
+
+// checkDerivedTypeKeys: C17-DERIVED. A field declared ([]Wheel) accepts a slice by comparing registered
+// types by identity; slice and pointer types are interned by a name built from their element type. That
+// name has to tell element types apart: RegisteredName does (one per registered type), ReflectName does
+// not (every script-declared struct is a zygo.RecordDefn, every derived type a reflect.Value). The rule:
+// in the routines that intern a derived type, the name looked up and registered is a constant prefix
+// followed by the element type's RegisteredName.
+func (c *Ctx) checkDerivedTypeKeys(rule string) {
+	regName := c.mustField(rule, "RegisteredType", "RegisteredName")
+	lookup := c.fn("GoStructRegistryType.Lookup")
+	if regName == nil || lookup == nil {
+		return
+	}
+	n := 0
+	for _, name := range []string{"GoStructRegistryType.GetOrCreateSliceType", "GoStructRegistryType.GetOrCreatePointerType"} {
+		f := c.mustFn(rule, name)
+		if f == nil {
+			continue
+		}
+		for _, site := range callsOf(f, lookup) {
+			n++
+			args := site.Common().Args
+			key := args[len(args)-1]
+			okKey := false
+			if bo, isCat := key.(*ssa.BinOp); isCat && bo.Op == token.ADD {
+				if _, isConst := bo.X.(*ssa.Const); isConst {
+					if base, ok := loadOfField(bo.Y, regName); ok && len(f.Params) >= 2 && base == ssa.Value(f.Params[1]) {
+						okKey = true
+					}
+				}
+			}
+			c.check(okKey, rule, name, "derived type interned under the element type's registered name", site.Pos(),
+				"the name is a constant prefix followed by the element type's RegisteredName",
+				"the derived type is looked up under a name that is not built from the element type's RegisteredName: names such as ReflectName are shared by all script-declared structs (zygo.RecordDefn) and by all derived types, so ([]Wheel) and ([]Seat) become one registered type and a field declared with one accepts the other on every write route")
+		}
+	}
+	if n < 2 {
+		c.undecided(rule, "gotypereg.go", "derived type interning", token.NoPos, fmt.Sprintf("only %d look-ups of derived types found (slice and pointer confirmed by reading)", n))
+	}
 }
